@@ -61,6 +61,38 @@ def fnv1a64(bs):
     return h
 
 
+def ubits(t, depth=0):
+    """Upper bound on the number of significant (unsigned) bits of a 64-bit term, from its syntax.
+    Used only to pick a smaller but equivalent encoding (e.g. a shift amount known to be < 64)."""
+    if depth > 40:
+        return 64
+    if z3.is_bv_value(t):
+        return t.as_long().bit_length()
+    k = t.decl().kind()
+    ch = t.children()
+    if k == z3.Z3_OP_CONCAT:
+        # leading zero constant?
+        if z3.is_bv_value(ch[0]) and ch[0].as_long() == 0:
+            rest = ch[1:]
+            if len(rest) == 1:
+                return min(rest[0].size(), ubits(rest[0], depth + 1))
+            return sum(c.size() for c in rest)
+        return t.size()
+    if k == z3.Z3_OP_ZERO_EXT:
+        return min(ch[0].size(), ubits(ch[0], depth + 1))
+    if k == z3.Z3_OP_EXTRACT:
+        return t.size()
+    if k == z3.Z3_OP_BAND:
+        return min(ubits(c, depth + 1) for c in ch)
+    if k in (z3.Z3_OP_BOR, z3.Z3_OP_BXOR):
+        return max(ubits(c, depth + 1) for c in ch)
+    if k == z3.Z3_OP_ITE:
+        return max(ubits(ch[1], depth + 1), ubits(ch[2], depth + 1))
+    if k == z3.Z3_OP_BLSHR:
+        return ubits(ch[0], depth + 1)
+    return t.size()
+
+
 class Builtins:
     def __init__(self):
         self.fresh = 0
@@ -167,8 +199,9 @@ class Builtins:
         else:
             r = a * b
             ok = z3.And(z3.BVMulNoOverflow(a, b, True), z3.BVMulNoUnderflow(a, b))
-        return [Alt(cond=ok, value=VInt(z3.simplify(r))),
-                Alt(cond=z3.Not(ok), unsupported="64-bit overflow in BV-mode integer_%s" % op)]
+        ok = z3.simplify(ok)
+        side = [] if z3.is_true(ok) else [(z3.Not(ok), "64-bit overflow in BV-mode integer_%s" % op)]
+        return [Alt(value=VInt(z3.simplify(r)), side=side)]
 
     def b_integer_add(self, arg, m):
         return self._arith(arg, "add")
@@ -360,6 +393,16 @@ class Builtins:
     @staticmethod
     def shift_bv(value, amount):
         zero = z3.BitVecVal(0, 64)
+        if z3.is_bv_value(amount):
+            a = amount.as_signed_long()
+            if a == 0:
+                return value
+            if abs(a) >= 64:
+                return zero if a > 0 else z3.If(value >= 0, zero, z3.BitVecVal(MASK64, 64))
+            return value << a if a > 0 else value >> (-a)
+        if ubits(amount) <= 6:
+            # 0 <= amount < 64: Rust takes the plain left shift (amount == 0 returns value, same)
+            return value << amount
         ab = z3.If(amount < 0, -amount, amount)   # unsigned_abs (i64::MIN -> 2^63 as unsigned)
         big = z3.UGE(ab, z3.BitVecVal(64, 64))
         return z3.If(amount == 0, value,
@@ -377,10 +420,12 @@ class Builtins:
             raise VMError("InvalidArgument", "Integer does not fit in a 64-bit value")
         if is_c(na):
             return [Alt(value=VInt(bin(na & MASK64).count("1")))]
-        bits = [z3.ZeroExt(63, z3.Extract(i, i, na)) for i in range(64)]
+        nb = max(1, min(64, ubits(na)))
+        bits = [z3.ZeroExt(6, z3.Extract(i, i, na)) for i in range(nb)]
         s = bits[0]
         for x in bits[1:]:
             s = s + x
+        s = z3.ZeroExt(57, s)
         alts = [Alt(cond=fa, value=VInt(z3.simplify(s)))]
         if fa is not True:
             alts.append(Alt(cond=neg(fa), error=("InvalidArgument", "does not fit in a 64-bit value")))
